@@ -503,7 +503,7 @@ def run_case(case):
     if not (v0 == v1).all():
         sub = f"value/{req}"
         if req == "factor_perturbed":
-            # known finding F31: if expanded terms of the written-out
+            # finding F31 (fixed in eed98ac; the tag is kept): if expanded terms of the written-out
             # intermediate are pairwise equal in value (the product has a
             # permutational symmetry over free indices, or is identically
             # zero), a term is matched onto positions of the intermediate it
